@@ -13,7 +13,7 @@ for i in range(n):
     pair.close(); ops+=len(tr.ops)
     if tr.disagreements:
         bad+=1
-        idx,fields=tr.disagreements[0]
+        idx,fields=tr.disagreements[0]['index'],tr.disagreements[0]['fields']
         print("DISAGREE",prof,variant,seed0+i,idx,fields)
         for (l,a,b) in tr.ops[max(0,idx-1):idx+1]:
             print("   OP ", l[:300]); print("   IMPL", a[:700]); print("   MODL", (b or "")[:700])
